@@ -913,3 +913,106 @@ def bytes_equality_kind(prog, target):
     if xors >= 1 and ors == 0:
         return "not-equality"
     return None
+
+
+# ---------------------------------------------------------------------------------------------------------------------
+# process-wide single-slot state
+ONCE_FILL = ("get_or_init", "get_or_try_init", "set", "try_insert", "get_mut_or_init", "get_or_insert_with", "get_or_insert", "insert", "replace")
+TABLE_TYS = ("HashMap<", "BTreeMap<", "LruCache<", "DashMap<", "HashSet<", "BTreeSet<")
+SLOT_TYS = ("OnceLock<", "OnceCell<", "LazyLock<", "LazyCell<", "Mutex<", "RwLock<", "ArcSwap<")
+
+
+def listener_config_types(prog):
+    """structs describing one configured listener / outbound: they carry the credential (`password`) of that entry"""
+    return [it for it in prog.items if it["k"] == "struct" and any(n == "password" for (n, _) in it.get("fields", []))]
+
+
+def single_slot_static_fills(prog):
+    """A `static` that is not a keyed table holds ONE value for the whole process. A fill whose value derives from a parameter of the enclosing
+    function is decided by whichever caller arrives first: every later flow / listener gets the first one's value.
+    Returns [(static item, body, term, reason or None)] — reason None: the fill is a constant (no run-time input)."""
+    out = []
+    cfg_last = {last_seg(it["path"]) for it in listener_config_types(prog)}
+    for it in prog.items:
+        if it["k"] != "static" or "::test" in it["path"] or "::_" in it["path"]:
+            continue
+        ty = it["ty"]
+        if not any(k in ty for k in SLOT_TYS) or any(k in ty for k in TABLE_TYS):
+            continue
+        for b in prog.prod_bodies():
+            refs = set()
+            for blk in b.rpo():
+                for s in b.stmts(blk):
+                    if s["k"] == "assign":
+                        for o in b.operands_of_rvalue(s["rv"]):
+                            c = op_const(o)
+                            if c and c.get("static") == it["path"]:
+                                refs.add(s["p"][0])
+            if not refs:
+                continue
+            for (blk, c, t) in b.calls():
+                if c.method not in ONCE_FILL or not t["args"]:
+                    continue
+                p0 = op_place(t["args"][0])
+                if p0 is None:
+                    continue
+                src, _, consts = b.slice_back([p0[0]])
+                if not (src & refs) and not any(k.get("static") == it["path"] for (_, k) in consts):
+                    continue
+                vals = []
+                for a in t["args"][1:]:
+                    p = op_place(a)
+                    if p is not None:
+                        vals.append(p[0])
+                seen, calls, _ = b.slice_back(vals) if vals else (set(), [], [])
+                params = sorted(l for l in seen if 1 <= l <= b.argc)
+                reason = None
+                if params:
+                    rootb = prog.body(b.root) or b
+                    ptys = [b.local_ty(l) for l in params]
+                    cfgp = [pt for pt in ptys + [rootb.local_ty(i) for i in range(1, rootb.argc + 1)] if any(re.search(r"\b" + re.escape(n) + r"\b", pt) for n in cfg_last)]
+                    what = f"a value of the configuration entry type ({cfgp[0][:60]})" if cfgp else f"parameter(s) {[b.local_name(l) or '_%d' % l for l in params]} of the enclosing function"
+                    reason = (f"the single process-wide slot `{last_seg(it['path'])}` ({ty[:60]}) is filled from {what}: whichever listener / flow gets here first "
+                              "decides the value every other one will use")
+                out.append((it, b, t, reason))
+    return out
+
+
+def struct_of_type(prog, ty):
+    """the workspace struct a (possibly borrowed / boxed / generic) type string names, or None"""
+    t = ty.strip()
+    while True:
+        m = re.match(r"^(&(?:'\w+ )?(?:mut )?|\*(?:const|mut) )", t)
+        if m:
+            t = t[m.end():].strip()
+            continue
+        m = re.match(r"^(?:std::boxed::)?Box<(.*)>$", t)
+        if m:
+            t = m.group(1).strip()
+            continue
+        break
+    head = last_seg(t.split("<")[0].strip())
+    cands = [it for it in prog.items if it["k"] == "struct" and last_seg(it["path"]) == head]
+    if len(cands) == 1:
+        return cands[0]
+    full = [it for it in cands if it["path"].endswith(t.split("<")[0].strip())]
+    return full[0] if len(full) == 1 else None
+
+
+def place_field_owners(prog, b, place):
+    """[(struct item, field name)] for every field projection of a place, resolved through the struct table"""
+    out = []
+    cur = struct_of_type(prog, b.local_ty(place[0]))
+    for e in place[1]:
+        if e[0] == "field":
+            name = e[2] if len(e) > 2 else None
+            if cur is None or name is None:
+                out.append((None, name))
+                cur = None
+                continue
+            out.append((cur, name))
+            fty = [ft for (fn, ft) in cur["fields"] if fn == name]
+            cur = struct_of_type(prog, fty[0]) if fty else None
+        elif e[0] == "downcast":
+            cur = None
+    return out
